@@ -25,7 +25,7 @@ def run(ctx: Ctx) -> Result:
         rs, fs, os_ = V.rbytes(rng, 32), V.rbytes(rng, 32), V.rbytes(rng, 32)
         rk, fk = bytes(SigningKey(rs).verify_key), bytes(SigningKey(fs).verify_key)
         pre = V.rbytes(rng, rng.choice([1, 2, 16, 32, 33, 64]))
-        hs = rng.choice([20, 20, 16, 32])
+        hs = rng.choice([20, 20, 16, 32, 1, 4, 8, 15, 17, 41, 64])
         timeout = rng.choice([0, 1, 30, 60, 61, 3600])
         flags = rng.choice(['00', '00', '01', '03'])
         sf = {'sigfield1': V.rbytes(rng, 6), 'sigfield2': V.rbytes(rng, 9)}
@@ -55,7 +55,11 @@ def run(ctx: Ctx) -> Result:
             return {'htlc': try_build(T.make_htlc_witness, seed, preimage, sf, flags), 'htlc2': try_build(T.make_htlc2_witness, seed, preimage, sf, flags),
                     'ptlc': try_build(T.make_ptlc_witness, seed, sf, None, flags), 'ptlc_tweak': try_build(T.make_ptlc_witness, seed, sf, twc, flags),
                     'ptlc_refund': try_build(T.make_ptlc_refund_witness, seed, sf, flags)}
-        claim, refund, stranger, wrongpre = W(rs, pre), W(fs, b'\x00'), W(os_, pre), W(rs, pre + b'x')
+        import hashlib as _h
+        def differs(c): return _h.shake_256(c).digest(hs) != _h.shake_256(pre).digest(hs) and c != pre      # tiny digests collide: "wrong" must mean a different digest
+        wrong = next(c for c in (pre + bytes([j]) for j in range(256)) if differs(c))
+        dummy = next(c for c in (bytes([j]) for j in range(256)) if differs(c))
+        claim, refund, stranger, wrongpre = W(rs, pre), W(fs, dummy), W(os_, pre), W(rs, wrong)
         if any(isinstance(w, str) for d in (claim, refund, stranger) for w in d.values()):
             B.viol('a witness builder raised', inp, 'witnesses', [w for d in (claim, refund, stranger) for w in d.values() if isinstance(w, str)]); continue
         fam = {'htlc_sha256': 'htlc', 'htlc_shake256': 'htlc', 'htlc2_sha256': 'htlc2', 'htlc2_shake256': 'htlc2', 'ptlc': 'ptlc', 'ptlc_tweak': 'ptlc_tweak'}
